@@ -554,6 +554,153 @@ def gen_bslash_line(rng, smp):
     return ''.join(toks)
 
 
+# ---------------------------------------------------------------------------------------------
+# the address stream: :s behind addresses that contain searches.  ex_region() evaluates /re/ and ?re? through ex_search(),
+# which stores re as the remembered pattern (ex_kwdset) -- the same static buffer the command's own pattern goes to and
+# from which ec_substitute fetches the pattern it compiles (ex_kwd).  The order is "address first, then the command's
+# own pattern": with a non-empty own pattern the lines found by the ADDRESS pattern are rewritten with the OWN pattern
+# (and the own pattern is what a later s//../ reuses); with an empty own pattern (/re/s//new/) the last address pattern
+# is reused.  Address pattern and own pattern are always different regular expressions, the lines hold matches of both,
+# the replacement refers to the groups of the own pattern.
+
+ADDR_WORDS = ['foo', 'END', 'b', 'é', 'a1', 'x y', 'ab', '€', 'x', 'o', 'q7']
+
+
+def gen_addr_pat(rng, ic):
+    """a pattern for a search address: (Pat, texts it matches, where a planted text must stand: '' / 'bol' / 'eol')"""
+    t = rng.below(12)
+    if t < 4:
+        w = rng.choice(ADDR_WORDS)
+        return p_lit(w, ic), [w], ''
+    if t == 4:
+        w = rng.choice(ADDR_WORDS)
+        return p_cat(BOL(), p_lit(w, ic)), [w], 'bol'
+    if t == 5:
+        w = rng.choice(ADDR_WORDS)
+        return p_cat(p_lit(w, ic), EOL()), [w], 'eol'
+    if t == 6:                               # groups of its own: \1 \2 must not expand against THEM
+        return p_cat(p_grp(p_lit('fo', ic)), p_grp(p_lit('o', ic))), ['foo'], ''
+    if t == 7:
+        return p_cat(p_grp(Pat('[0-9]', '[0-9]', False)), p_grp(Pat('[a-z]', '[a-zA-Z]' if ic else '[a-z]', False))), ['1a', '7q', '2b'], ''
+    if t == 8:
+        return Pat('[A-Z]+', '[A-Za-z]+' if ic else '[A-Z]+', False), ['END', 'B', 'AB'], ''
+    p, smp = anchor_piece(rng, ic)
+    return p, smp, ''
+
+
+def gen_addr_own(rng, ic):
+    """the pattern of the command itself with a replacement that refers to its groups: (Pat, texts it matches, replacement tokens)"""
+    lit = lambda s: (s, 'lit', s)
+    grp = lambda k: ('\\%d' % k, 'grp', k)
+    t = rng.below(10)
+    if t < 2:
+        lo = Pat('[a-z]', '[a-zA-Z]' if ic else '[a-z]', False)
+        return p_cat(p_grp(lo), p_grp(Pat('[0-9]', '[0-9]', False))), ['a1', 'b2', 'q7', 'x0'], [grp(2), grp(1)]
+    if t == 2:
+        x = Pat('x+', py_char('x', ic) + '+', False)
+        y = Pat('(y)?', '(' + py_char('y', ic) + ')?', True)
+        return p_cat(p_grp(x), y), ['x', 'xxy', 'xy', 'xx'], [lit('['), grp(1), lit('|'), grp(2), lit(']')]
+    if t == 3:
+        w = rng.choice(['x', 'ab', 'é', 'o', 'b'])
+        return p_grp(p_lit(w, ic)), [w], rng.choice([[grp(1), grp(1)], [lit('<'), grp(1), lit('>')], [grp(0), lit('-'), grp(1)]])
+    if t == 4:
+        a, b = rng.choice([('a', 'b'), ('x', 'y'), ('o', 'é')])
+        return p_alt(p_grp(p_lit(a, ic)), p_grp(p_lit(b, ic))), [a, b], [lit('('), grp(1), lit(','), grp(2), lit(')')]
+    if t == 5:
+        return Pat('x', py_char('x', ic), False), ['x'], rng.choice([[lit('y')], [lit('Y'), grp(0)], []])
+    p, smp = anchor_piece(rng, ic)
+    toks = rng.choice([[lit('X')], [lit('<'), grp(0), lit('>')], [grp(1), lit('_')], [], [lit('é'), grp(0)]])
+    if rng.chance(1, 4):
+        toks = gen_rep(rng)
+    return p, smp, toks
+
+
+def gen_addr_lines(rng, nl, sa, place, sp, sb):
+    """lines that hold matches of the address pattern(s) (sa, sb) and of the own pattern (sp) side by side"""
+    fill = ['c', 'z', ' ', '-', 'w ', ' - ', 'zz']
+    lines = []
+    for i in range(nl):
+        kind = rng.below(8)                  # 0: neither; 1-3: both; 4: address only; 5-6: own only; 7: second address + own
+        toks = []
+        for _ in range(rng.choice([1, 2, 2, 3, 4])):
+            r = rng.below(4)
+            if r == 0 or kind == 0:
+                toks.append(rng.choice(fill))
+            elif kind in (1, 2, 3):
+                toks.append(rng.choice(sp) if rng.chance(1, 2) else rng.choice(sa))
+            elif kind == 4:
+                toks.append(rng.choice(sa))
+            elif kind in (5, 6):
+                toks.append(rng.choice(sp))
+            else:
+                toks.append(rng.choice(sp) if rng.chance(1, 2) else rng.choice(sb))
+            if rng.chance(1, 2):
+                toks.append(' ')
+        if kind in (1, 2, 3, 4):
+            if place == 'bol':
+                toks.insert(0, rng.choice(sa))
+            elif place == 'eol':
+                toks.append(rng.choice(sa))
+            elif not any(t in sa for t in toks):
+                toks.insert(rng.below(len(toks) + 1), rng.choice(sa))
+        if kind in (1, 2, 3) and not any(t in sp for t in toks):
+            toks.insert(rng.below(len(toks) + 1) if place != 'bol' else len(toks), ' ' + rng.choice(sp))
+        lines.append(''.join(toks))
+    return lines
+
+
+ADDR_FORMS = ['/A/', '/A/', '/A/', 'N,/A/', 'N,/A/', 'N;/A/', 'N;/A/', 'N;?A?,.', 'N;?A?,.', '?A?', '?A?', '/A/+1', '/A/-1', '?A?+1', 'N;/A/+1', 'N,/A/-1',
+              '/A/,/B/', '/A/;/B/', '/A/,$', '/A/;+1', 'N;/A/;.', '/B/;?A?', '/A/+2-1', 'N', '%', '', 'N,M', '.,/A/']
+
+
+def gen_addr(rng, nl, A, B, form=None):
+    """an address: (form, text, terms, separators); a term is (kind, value, offset) with kind n . $ / ? or '' (nothing typed)"""
+    form = form or rng.choice(ADDR_FORMS)
+    n = rng.range(1, nl)
+    m = rng.range(n, nl)
+    terms, seps = [], []
+    i = 0
+    while i < len(form):
+        c = form[i]
+        if c in ',;':
+            seps.append(c)
+            i += 1
+            continue
+        if c in '/?':
+            terms.append([c, A if form[i + 1] == 'A' else B, 0])
+            i += 3
+        elif c == 'N':
+            terms.append(['n', n, 0]); i += 1
+        elif c == 'M':
+            terms.append(['n', m, 0]); i += 1
+        elif c in '.$':
+            terms.append([c, None, 0]); i += 1
+        elif c == '%':
+            terms.append(['%', None, 0]); i += 1
+        elif c in '+-':
+            j = i + 1
+            while j < len(form) and form[j].isdigit():
+                j += 1
+            if not terms or len(seps) == len(terms):
+                terms.append(['', None, 0])
+            terms[-1][2] += int(form[i:j])
+            terms[-1].append(form[i:j])
+            i = j
+    out = []
+    for k, t in enumerate(terms):
+        kind, val = t[0], t[1]
+        if kind == 'n':
+            out.append(str(val))
+        elif kind in '/?' and kind:
+            out.append(kind + esc_delim(val.nv, kind) + kind)
+        else:
+            out.append(kind)
+        out.append(''.join(t[3:]))
+        if k < len(seps):
+            out.append(seps[k])
+    return form, ''.join(out), [tuple(t[:3]) for t in terms], seps
+
+
 def esc_delim(text, d):
     """escape the delimiter where it stands as an ordinary character (not already behind a backslash)"""
     out = []
@@ -759,6 +906,46 @@ def run(ctx):
                     cmds.append(one_cmd('%', (1, nl), d, None, [('Z', 'lit', 'Z')], True))
                 cases.append({'ic': 0, 'lines': lines, 'cmds': cmds, 'kind': 'backslash stream', 'corpus': False, 'bslash': True})
 
+        # the address stream: :s behind search addresses; own pattern non-empty (the address pattern only selects the lines)
+        # or empty (the address pattern is reused); then up to two more commands: s//rep/ , a bare s (= repeat: remembered
+        # pattern AND remembered replacement), another :s behind a search address
+        for i in range(520 if ctx.quick else 9000):
+            ic = 1 if rng.chance(1, 4) else 0
+            for _ in range(20):
+                A, sa, place = gen_addr_pat(rng, ic)
+                B, sb, _pl = gen_addr_pat(rng, ic)
+                P, sp, toks = gen_addr_own(rng, ic)
+                if len({A.nv, B.nv, P.nv}) == 3:
+                    break
+            nl = rng.choice([3, 4, 5, 5, 6, 7])
+            lines = gen_addr_lines(rng, nl, sa, place, sp, sb)
+            cmds = []
+            ncmd = rng.choice([1, 1, 2, 2, 2, 3])
+            for j in range(ncmd):
+                d = rng.choice(DELIMS)
+                style = rng.below(8) if j else rng.below(5)
+                if j == 0 or style >= 5:
+                    form, loc, terms, seps = gen_addr(rng, nl, A, B)
+                else:
+                    form, loc, terms, seps = gen_addr(rng, nl, A, B, rng.choice(['%', 'N', '', 'N,M', '/B/', '/A/', '%', 'N;/B/']))
+                g = rng.chance(1, 2)
+                if j == 0:
+                    own = None if rng.chance(1, 4) else P             # /A/s//new/ : one in four
+                    tk = toks if own is not None or rng.chance(1, 2) else [('N', 'lit', 'N'), ('\\1', 'grp', 1)]
+                    cm = one_cmd(loc, (0, 0), d, own, tk, g, closing=not (not g and rng.chance(1, 8)))
+                elif style in (0, 1, 5):                               # s//rep/ : the remembered pattern
+                    cm = one_cmd(loc, (0, 0), d, None, rng.choice([[('Z', 'lit', 'Z')], [('z', 'lit', 'z'), ('\\1', 'grp', 1)], [('\\0', 'grp', 0), ('\\0', 'grp', 0)]]), g)
+                elif style in (2, 6):                                  # bare s: remembered pattern and remembered replacement, no flag
+                    cm = {'range': (0, 0), 'text': loc + 's', 'body': 's', 'pat': None, 'toks': None, 'g': False, 'bare': True}
+                else:                                                  # a new pattern (the second address pattern's turn to differ)
+                    P2, _sp2, toks2 = gen_addr_own(rng, ic)
+                    if P2.nv in (A.nv, B.nv):
+                        P2, toks2 = P, toks
+                    cm = one_cmd(loc, (0, 0), d, P2, toks2, g)
+                cm.update({'loc': loc, 'addr': {'terms': terms, 'seps': seps}, 'form': form})
+                cmds.append(cm)
+            cases.append({'ic': ic, 'lines': lines, 'cmds': cmds, 'kind': 'address stream', 'corpus': False, 'addr': True})
+
     # ---------------------------------------------------------------- implementation
     def script_of(c):
         s = ('se ic\n' if c['ic'] else 'se noic\n') + ''.join(cm['text'] + '\n' for cm in c['cmds']) + '%p\nw o\nq!\n'
@@ -790,16 +977,25 @@ def run(ctx):
                                'script': script_of(c).decode('utf-8', 'replace'), 'stderr': r2.err[-1500:].decode('utf-8', 'replace')}, kf=c.get('kf'))
 
     # ---------------------------------------------------------------- model (rounds over the command index)
-    mstate = [{'kwd': 'none', 'rep': '-', 'buf': [l.encode('utf-8') + b'\n' for l in c['lines']], 'ok': True, 'cut': False} for c in cases]
+    mstate = [{'kwd': 'none', 'dir': 0, 'row': 0, 'rep': '-', 'buf': [l.encode('utf-8') + b'\n' for l in c['lines']], 'ok': True, 'cut': False} for c in cases]
     ndis = [0]
     if model:
-        for j in range(2):
+        for j in range(max([len(c['cmds']) for c in cases] + [2])):
             idx = [i for i, c in enumerate(cases) if len(c['cmds']) > j and mstate[i]['ok']]
             if not idx:
                 break
             reqs = []
             for i in idx:
-                text = cases[i]['cmds'][j]['text']
+                cm = cases[i]['cmds'][j]
+                text = cm['text']
+                if 'loc' in cm:
+                    # the MODEL evaluates the address (SubstAddrDefs.subst_head: ex_region with its searches -- matcher = engine_find --,
+                    # THEN the command's own pattern): state = remembered pattern, its direction, remembered replacement, current row
+                    st = mstate[i]
+                    tail = text[len(cm['loc']):][1:]
+                    reqs.append('hd %s %d %s %d %d %s %s %s' % (st['kwd'] if st['dir'] else '-', st['dir'], st['rep'], st['row'], cases[i]['ic'],
+                                                               hx(cm['loc'].encode('utf-8')), hx(tail.encode('utf-8')), ' '.join(hx(l) for l in st['buf'])))
+                    continue
                 tail = text[text.index('s') + 1:]
                 reqs.append('pre %s %s %s' % (mstate[i]['kwd'], mstate[i]['rep'], hx(tail.encode('utf-8'))))
             rc, out, err = vlib.run_lines(model, reqs, timeout=600)
@@ -810,11 +1006,20 @@ def run(ctx):
             for i, o in zip(idx, out):
                 d = dict(p.split('=', 1) for p in o.split(' '))
                 st = mstate[i]
+                if 'dir' in d:
+                    if d['bad'] == 'fuel':
+                        st['ok'], st['why'] = False, 'out of fuel in the address loop'
+                        continue
+                    st['dir'], st['row'] = int(d['dir']), int(d['row'])
+                    st['region'] = st.get('region', []) + [(d['bad'], d['beg'], d['end'])]
+                    rows = range(int(d['beg']), int(d['end']))
+                else:
+                    b, e = cases[i]['cmds'][j]['range']
+                    rows = range(b - 1, e)
                 st['kwd'], st['rep'], st['g'], st['pat'] = d['kwd'], d['rep'], d['g'], d['pat']
                 if d['pat'] == 'none':
                     continue                    # error return: nothing changes
-                b, e = cases[i]['cmds'][j]['range']
-                for ln in range(b - 1, e):
+                for ln in rows:
                     treqs.append('tb %s %d %s' % (d['pat'], cases[i]['ic'], hx(st['buf'][ln])))
                     tmap.append((i, ln))
             rc, tout, err = vlib.run_lines(probe, treqs, timeout=900)
@@ -864,22 +1069,79 @@ def run(ctx):
                     mstate[i]['why'] = o
 
     # ---------------------------------------------------------------- the reference and the shrinker
-    def reference(c, lctx):
+    def ref_region(ad, buf, st):
+        """the lines an address designates, evaluated left to right: ('ok', first row, last row + 1) / ('reject',) / ('skip',).
+        A search /re/ (?re?) finds the next (previous) line after (before) the current one that has a match of re, without wrapping
+        around, and leaves re behind as the remembered pattern; a ; makes the address before it the current line; of more than two
+        addresses the last two count; an address that fails or lies outside the buffer rejects the command.  skip = outside what
+        this reference defines (a row before the first line; a range that ends one line before it starts)."""
+        rows = []
+        terms, seps = ad['terms'], ad['seps']
+        if len(terms) == 1 and terms[0][0] == '%':
+            return ('ok', 0, len(buf))
+        if not terms:
+            return ('ok', st['xrow'], st['xrow'] + 1) if 0 <= st['xrow'] < len(buf) else ('reject',)
+        for k, (kind, val, off) in enumerate(terms):
+            if kind == 'n':
+                row = val - 1
+            elif kind == '$':
+                row = len(buf) - 1
+            elif kind in ('/', '?'):
+                st['last'] = val
+                try:
+                    rx = re.compile(val.py)
+                except re.error:
+                    return ('skip',)
+                step = 1 if kind == '/' else -1
+                row = st['xrow'] + step
+                while 0 <= row < len(buf) and not rx.search(buf[row]):
+                    row += step
+                if not 0 <= row < len(buf):
+                    return ('reject',)
+            else:
+                row = st['xrow']
+            row += off
+            if row < 0 or (row >= len(buf) and k < len(seps) and seps[k] == ';'):
+                return ('skip',)
+            rows.append(row)
+            if k < len(seps) and seps[k] == ';':
+                st['xrow'] = row
+        b, e = (rows[-1], rows[-1]) if len(rows) == 1 else (rows[-2], rows[-1])
+        if e == b - 1:
+            return ('skip',)                # a,b with b one line before a: the editor takes it as an empty range, ex as an error -- not C14's business
+        if b >= len(buf) or e >= len(buf) or e < b:
+            return ('reject',)
+        return ('ok', b, e + 1)
+
+    def reference(c, lctx, trace=None):
         buf = list(c['lines'])
-        last = None
+        st = {'xrow': 0, 'last': None}
+        lastrep = []
         for cm in c['cmds']:
-            p = cm['pat'] or last
+            if 'addr' in cm:
+                r = ref_region(cm['addr'], buf, st)
+                if trace is not None:
+                    trace.append(r)
+                if r[0] == 'skip':
+                    return None
+                if r[0] == 'reject':
+                    continue                # the command is not executed: its pattern and replacement are not remembered either
+                b, e = r[1], r[2]
+            else:
+                b, e = cm['range'][0] - 1, cm['range'][1]
+            toks = lastrep if cm.get('bare') else cm['toks']
+            lastrep = toks
+            p = cm['pat'] or st['last']
             if p is None:
                 continue
-            last = p
+            st['last'] = p
             try:
                 rx = re.compile(p.py)
                 rxnb = re.compile(p.pynb)
             except re.error:
                 return None
-            b, e = cm['range']
-            for ln in range(b - 1, e):
-                buf[ln], _ = py_subst(buf[ln], rx, rxnb, cm['toks'], cm['g'], lctx)
+            for ln in range(b, e):
+                buf[ln], _ = py_subst(buf[ln], rx, rxnb, toks, cm['g'], lctx)
         return ''.join(l + '\n' for l in buf).encode('utf-8')
 
     def failing(c):
@@ -902,6 +1164,18 @@ def run(ctx):
             return c
         shrunk[0] += 1
         best = c
+        if c.get('addr'):
+            # addresses are evaluated by the reference on whatever buffer is left: drop trailing commands, then whole lines
+            for k in range(1, len(best['cmds'])):
+                cand = dict(best, cmds=best['cmds'][:k])
+                if failing(cand):
+                    best = cand
+                    break
+            if len(best['lines']) > 1:
+                sm = vlib.shrink(list(best['lines']), lambda sub: len(sub) > 0 and failing(dict(best, lines=list(sub))), max_steps=40)
+                if sm:
+                    best = dict(best, lines=list(sm))
+            return best
         if len(best['cmds']) == 2:
             for j in (1, 0):
                 if best['cmds'][j]['pat'] is not None:
@@ -922,7 +1196,8 @@ def run(ctx):
 
     # ---------------------------------------------------------------- compare
     def desc(c, expect=None):
-        d = {'ic': c['ic'], 'lines': c['lines'], 'cmds': [{'range': list(cm['range']), 'text': cm['text']} for cm in c['cmds']]}
+        d = {'ic': c['ic'], 'lines': c['lines'], 'cmds': [dict({'range': list(cm['range']), 'text': cm['text']}, **({'loc': cm['loc']} if 'loc' in cm else {}))
+                                                        for cm in c['cmds']]}
         if 'expect' in c:
             d['expect'] = c['expect']
         elif expect is not None:
@@ -982,7 +1257,7 @@ def run(ctx):
                 res.count('pattern can match the empty string')
             if p.word:
                 res.count('pattern has \\< or \\>')
-        if any(t[1] == 'grp' for cm in c['cmds'] for t in cm['toks']):
+        if any(t[1] == 'grp' for cm in c['cmds'] for t in (cm['toks'] or [])):
             res.count('replacement references a group')
         if any(ord(ch) > 127 for l in c['lines'] for ch in l):
             res.count('multi-byte line')
@@ -1017,6 +1292,23 @@ def run(ctx):
                 res.count('interval stream: a run longer than m whose length is not a multiple of m')
         if c.get('bslash'):
             res.count('backslash stream, %s' % ('with g' if c['cmds'][0]['g'] else 'without g'))
+        if c.get('addr'):
+            tr = []
+            reference(c, False, tr)
+            for cm, r in zip(c['cmds'], tr):
+                search = any(t[0] in ('/', '?') for t in cm['addr']['terms'])
+                res.count('address stream, address %s: %s' % ('with a search' if search else 'without a search', {'ok': 'accepted', 'reject': 'rejected'}.get(r[0], r[0])))
+                if search and r[0] == 'ok':
+                    res.count('address stream, form %s' % cm['form'])
+                    res.count('address stream: search address accepted, own pattern %s' % ('typed' if cm['pat'] else ('empty (s//rep/)' if not cm.get('bare') else 'none (bare s)')))
+            # how many cases can tell "the own pattern" from "the address pattern": the rewrite with the address pattern in the own pattern's place differs
+            cm0, r0 = c['cmds'][0], (tr[0] if tr else ('skip',))
+            if cm0['pat'] and r0[0] == 'ok':
+                last_addr = [t[1] for t in cm0['addr']['terms'] if t[0] in ('/', '?')]
+                if last_addr:
+                    alt = reference(dict(c, cmds=[dict(cm0, pat=last_addr[-1])]), False)
+                    if alt is not None and alt != reference(dict(c, cmds=[cm0]), False):
+                        res.count('address stream: first command has an own pattern and rewriting with the address pattern instead gives another buffer')
         if got_file == variants['ideal']:
             continue
         word = any(p.word for p in pats)
